@@ -15,9 +15,14 @@ var NonWf = map[string]string{
 	"wallet.RawMessage":                  "helper struct with a plain *boc.Cell field (a cell stored inline replaces the cell under construction)",
 }
 
-var unprovedCodec = map[string]string{
-	"wallet.MessageV5":         "wallet.W5ExtendedActions",
-	"wallet.W5ExtendedActions": "wallet.W5ExtendedActions",
+var unprovedCodec = map[string]string{}
+
+// ChainProved: types outside the greedy / non-greedy well-formedness condition (they hold a reference chain, which
+// follows the next reference of the cell whenever there is one) whose round trip is proved by the dedicated theorem
+// chainTop_roundtrip / chain_roundtrip; X1 emits `wfc_<T>` for them: the Lean checker that decides the shape.
+var ChainProved = map[string]string{
+	"wallet.MessageV5":         "chainTopb",
+	"wallet.W5ExtendedActions": "chainOkb",
 }
 
 // get-method result structs: filled from the VM stack, never laid out in a cell; they hold boc.Cell / Any values inline
@@ -32,6 +37,9 @@ var getMethodResults = []string{
 }
 
 func init() {
+	for n := range ChainProved {
+		NonWf[n] = "holds a reference chain (third mode next to greedy / non-greedy): round trip by chainTop_roundtrip, obligation wfc_<T>"
+	}
 	for n, c := range unprovedCodec {
 		NonWf[n] = "contains the hand-written codec `" + c + "` whose CodecOK lemma is not proved (model compared with the implementation on every run)"
 	}
@@ -44,5 +52,8 @@ func init() {
 func NotTlb(name string) bool {
 	_, ok := NonWf[name]
 	_, unproved := unprovedCodec[name]
+	if _, chain := ChainProved[name]; chain {
+		unproved = true
+	}
 	return ok && !unproved && name != "tlb.VmStack" && name != "tlb.BlkPrevInfo"
 }
